@@ -176,11 +176,11 @@ prop("C19",
      technique="deviation-bounded exhaustive enumeration of read()/write() answers (E3) on the real send/recv path, and explicit-state BFS over socket lifecycle histories with injected syscall failures against a descriptor-ownership model",
      rule="transfer: for every payload length in {1,2,4095,4096,4097,8192,16385,20000} x {peer closes, stays open}, every sequence of answers for the first k read/write calls with at most d non-default answers "
           "({complete,1 byte,half,EINTR} on read, +EAGAIN on write) is executed on a real UNIX-domain connection and the received bytes compared with the payload; "
-          "lifecycle: BFS over {new, open, open with socket/bind/listen/connect failure, accept, failed accept, set_nbio, send, recv, close, dup, del} with the invariant fd>=0 <=> owns an open descriptor "
+          "lifecycle: BFS over {new, open, open with socket/bind/listen/connect failure, accept, failed accept, accept and dup with dup() failing, set_nbio, send, recv, close, dup, del} with the invariant fd>=0 <=> owns an open descriptor "
           "and a descriptor census after deleting everything; non-trivial = every transfer case (each expands into its schedule tree) + distinct lifecycle states",
      bounds={"quick": "k=5 calls, <=2 deviations; lifecycle depth 8 with one-step look-ahead", "thorough": "k=7 calls, <=3 deviations; lifecycle to its fixpoint (depth cap 30) with one-step look-ahead"},
      runs=[dict(name="h_sock", sources=["harness/h_sock.c"], profile="asan",
-                wraps=["read", "write", "select", "socket", "bind", "listen", "connect", "accept"],
+                wraps=["read", "write", "select", "socket", "bind", "listen", "connect", "accept", "dup"],
                 args={"quick": ["--k=5", "--dev=2", "--depth=8"], "thorough": ["--k=7", "--dev=3", "--depth=30"]})],
      deadline={"quick": 240, "thorough": 3000})
 
